@@ -182,7 +182,10 @@ func (self *Core) runInstruction(instruction compiler.Instruction) *value.VmInte
 			return interrupt
 		}
 
-		self.push(v)
+		// Host calls without a result (registering a trigger) leave nothing on the stack.
+		if v != nil {
+			self.push(v)
+		}
 	case compiler.Opcode_Jump:
 		i := instruction.(compiler.OneIntInstruction)
 		self.callFrame().InstructionPointer = uint(i.Value)
